@@ -6,7 +6,7 @@ from .encoders import encode_multipart
 from .wsgi import make_environ
 
 KINDS = ['ok', 'ok_json_accept', 'notfound', 'notfound_json', 'wrongverb', 'badpath', 'badchunk', 'oversized', 'badmultipart', 'badjson', 'crash', 'raised', 'gen', 'form',
-         'cookie_then_abort', 'head_ok', 'rex', 'typed', 'expires', 'longpath', 'longquery', 'status_str', 'status_int', 'signed', 'urlinfo', 'auth']
+         'cookie_then_abort', 'head_ok', 'rex', 'typed', 'expires', 'longpath', 'longquery', 'status_str', 'status_int', 'signed', 'urlinfo', 'auth', 'bigform']
 
 
 _DEFAULT_ERRORS = []
@@ -43,7 +43,7 @@ def make_app(probe=None, config=None, private_errors=False, app=None, foreign=No
     private_errors: give the application its own error objects instead of the process-wide ones of DefaultConfig.errors_map
     (reference applications use this, so that nothing they do can reach the application under test through a shared object)."""
     import ombott
-    cfg = {'max_body_size': 200, 'max_memfile_size': 64}
+    cfg = {'max_body_size': 600, 'max_memfile_size': 160}
     if private_errors:
         cfg['errors_map'] = {k: ombott.HTTPError(code, body) for k, code, body in _default_errors()}
     cfg.update(config or {})
@@ -205,7 +205,7 @@ def make_env(kind, n, stream_cls=Stream):
     if kind == 'badchunk':
         return _e('POST', '/body', q, stream=stream_cls(b'5\r\nabc'), content_length=None, headers={'Transfer-Encoding': 'chunked', 'Accept': 'application/json' if n % 2 else 'text/html'})
     if kind == 'oversized':
-        data = b'z' * (201 + n % 5)
+        data = b'z' * (601 + n % 5)
         return _e('POST', '/body', q, stream=stream_cls(data), content_length=len(data), headers={'Accept': 'application/json' if n % 2 else 'text/html'})
     if kind == 'badmultipart':
         b = ('bnd%d' % n)
@@ -214,6 +214,11 @@ def make_env(kind, n, stream_cls=Stream):
     if kind == 'form':
         b = ('B%dnd' % n)
         data, _ = encode_multipart(b, [{'name': 'a', 'value': b'v%d' % n}, {'name': 'b', 'value': b'w'}], b'', b'\r\n')
+        return _e('POST', '/form', q, stream=stream_cls(data), content_length=len(data), headers={'Content-Type': 'multipart/form-data; boundary=' + b})
+    if kind == 'bigform':
+        # text fields beyond the in-memory budget: refused (413) by the form reader, not by the body reader
+        b = ('G%dg' % n)
+        data, _ = encode_multipart(b, [{'name': 'a', 'value': b'v' * (120 + n % 9)}, {'name': 'b', 'value': b'w' * 90}], b'', b'\r\n')
         return _e('POST', '/form', q, stream=stream_cls(data), content_length=len(data), headers={'Content-Type': 'multipart/form-data; boundary=' + b})
     if kind == 'badjson':
         data = b'{"a": %d' % n
